@@ -25,69 +25,72 @@ ASSUMPTIONS = [
 def rule_parse(ctx, prop):
     rep = Report(prop, "R-PARSE", "format_code: formatting and Ok(..) only on the Ok edge of the parse result; "
                                   "Err edge returns Error::ParseError")
+    from paths import Enumerator, TooManyPaths
     for cfg, prog in ctx.programs.items():
         f = prog.fn("stylua_lib", "format_code")
         if not rep.anchor(f is not None, "format_code", cfg):
             continue
-        # the switch on the parse result
-        sw = None
-        for bi in range(len(f.blocks)):
-            si = switch_info(f, bi)
-            if not si or not si["enum"].endswith("result::Result"):
-                continue
-            pl = si["place"]
-            ogs = origins(f, pl["l"])
-            if any(o[0] == "call" and re.search(r"AstResult::into_result$", callee(o[2])) for o in ogs):
-                sw = (bi, si)
-                break
-        if not rep.anchor(sw is not None, "switch on parse_fallible(..).into_result()", cfg):
+        parse_calls = [(b, t) for b, t in f.calls() if re.search(r"full_moon::parse(_fallible)?$", callee(t))]
+        if not rep.anchor(len(parse_calls) == 1, "exactly one parse call in format_code", cfg):
             continue
-        bi, si = sw
-        okb, errb = si["targets"].get("Ok"), si["targets"].get("Err")
-        if okb is None or errb is None:
-            # one of them may be the otherwise edge
-            okb = okb if okb is not None else si["otherwise"]
-            errb = errb if errb is not None else si["otherwise"]
-        # parse call uses the code parameter
-        parse_calls = [(b, t) for b, t in f.calls() if re.search(r"full_moon::parse_fallible$", callee(t))]
-        rep.anchor(len(parse_calls) == 1, "exactly one parse_fallible call in format_code", cfg)
-        nfa = 0
-        for b, t in f.calls():
-            c = callee(t)
-            if re.search(r"(^|::)format_ast$", c) or re.search(r"ToString>::to_string$|::to_string$", c):
-                nfa += 1
-                ok = f.dominates(okb, b) and b not in f.reach_from(errb)
-                rep.inst(f"{f.key} call={c.split('::')[-1]} on-Ok-edge", {"fn": f.key, "callee": c,
-                                                                          "at": f.loc(t["sp"])}, cfg, ok=ok)
-                if not ok:
-                    rep.violation(f"{f.key} {c.split('::')[-1]}-not-on-Ok-edge",
-                                  f"{c} is reachable without the parse result being Ok", f.loc(t["sp"]), cfg)
-        rep.floor("format_ast/to_string calls in format_code", nfa, 2, cfg)
-        # Err edge builds Error::ParseError and returns Err; no Ok aggregate reachable from Err edge
-        err_region = f.reach_from(errb)
-        has_pe = False
-        for b in err_region:
-            for s in f.blocks[b]["st"]:
-                if s["k"] == "assign" and s["rv"]["k"] == "agg":
-                    if s["rv"].get("variant") == "ParseError":
-                        has_pe = True
-                    if s["rv"].get("adt", "").endswith("result::Result") and s["rv"].get("variant") == "Ok":
-                        rep.violation(f"{f.key} Ok-built-on-parse-error-edge",
-                                      "Result::Ok is constructed on the parse-error edge", f.loc(s["sp"]), cfg)
-        rep.inst(f"{f.key} Err-edge-builds-ParseError", {"fn": f.key, "err_block": errb}, cfg, ok=has_pe)
-        if not has_pe:
-            rep.violation(f"{f.key} parse-error-edge-does-not-build-ParseError",
-                          "the Err edge of the parse result does not construct Error::ParseError",
-                          f.loc(), cfg)
-        # every Ok aggregate dominated by Ok edge
-        for b, sidx, s in f.stmts():
-            if s["k"] == "assign" and s["rv"]["k"] == "agg" and s["rv"].get("adt", "").endswith("result::Result") \
-                    and s["rv"].get("variant") == "Ok":
-                ok = f.dominates(okb, b)
-                rep.inst(f"{f.key} Ok-aggregate-dominated-by-parse-Ok", {"at": f.loc(s["sp"])}, cfg, ok=ok)
-                if not ok:
-                    rep.violation(f"{f.key} Ok-not-dominated-by-parse-Ok",
-                                  "format_code can return Ok(..) without a successful parse", f.loc(s["sp"]), cfg)
+        # calls whose result *is* the parse result (into_result / map_err / Try::branch chains on it)
+        carriers = {parse_calls[0][0]}
+        changed = True
+        while changed:
+            changed = False
+            for b, t in f.calls():
+                if b in carriers or not t["args"]:
+                    continue
+                c = callee(t)
+                if re.search(r"into_result$|Result::<.*>::map_err$|Try>::branch$|Result::<T, E>::map_err$", c) and \
+                        any(r[0] == "call" and r[2] in carriers for r in provenance(f, t["args"][0], through=None)):
+                    carriers.add(b)
+                    changed = True
+        try:
+            res = Enumerator(f, summaries=False, max_paths=20000).run()
+        except TooManyPaths:
+            rep.anchor(False, "format_code: too many paths", cfg)
+            continue
+        nok = nerr = 0
+        for st in res:
+            verdict = None
+            for k, v in st.disc.items():
+                if k.startswith("call:") and "." not in k and int(k[5:]) in carriers:
+                    if v in ("Ok", "Continue"):
+                        verdict = verdict or "ok"
+                    elif v in ("Err", "Break"):
+                        verdict = "err"
+            names = [c for _, c, _ in st.calls]
+            formats = any(re.search(r"(^|::)format_ast$", c) for c in names)
+            v0 = st.vals.get(0)
+            returns_ok = bool(v0 and v0[0] == "agg" and v0[2] == "Ok")
+            if verdict == "ok":
+                nok += 1
+            elif verdict == "err":
+                nerr += 1
+                pe = any(s["k"] == "assign" and s["rv"]["k"] == "agg" and s["rv"].get("variant") == "ParseError"
+                         for b in st.trail for s in f.blocks[b]["st"]) or \
+                    any(c.endswith("map_err") and any(r[0] == "const" and "ParseError" in r[1]
+                                                      for r in provenance(f, t["args"][1], through=None))
+                        for _, c, t in st.calls if c.endswith("map_err"))
+                okp = not formats and not returns_ok and pe
+                rep.inst(f"{f.key} Err-edge-builds-ParseError", {"fn": f.key}, cfg, ok=okp)
+                if formats or returns_ok:
+                    rep.violation(f"{f.key} Ok-built-on-parse-error-edge",
+                                  "format_code formats or returns Ok(..) on the parse-error edge: text that did not parse is "
+                                  "reported as a success", f.loc(), cfg)
+                elif not pe:
+                    rep.violation(f"{f.key} parse-error-edge-does-not-build-ParseError",
+                                  "the Err edge of the parse result does not construct Error::ParseError", f.loc(), cfg)
+                continue
+            if formats or returns_ok:
+                okv = verdict == "ok"
+                rep.inst(f"{f.key} call=format_ast on-Ok-edge", {"fn": f.key}, cfg, ok=okv)
+                if not okv:
+                    rep.violation(f"{f.key} format_ast-not-on-Ok-edge",
+                                  "format_ast / Ok(..) is reachable without the parse result being Ok", f.loc(), cfg)
+        rep.floor("format_code paths on the Ok edge of the parse", nok, 1, cfg)
+        rep.floor("format_code paths on the Err edge of the parse", nerr, 1, cfg)
     return rep
 
 
